@@ -193,6 +193,37 @@ def writeIp6Ext (nextAndData : Nat × Bytes) : Bytes :=     -- IPv6::write_heade
 
 /-! ### `write_serialization` -/
 
+/-- the octet `ICMP::write_serialization` leaves in the RFC 4884 length position (`user` = what the object holds there: the
+    low octet of the identifier, or 1 after `use_length_field(true)`): for the extensible types, when the field is in use
+    or the original datagram is longer than 128 octets, the padded size of the inner PDU in 32-bit words (at least 128
+    octets when an extension structure follows), stored in an 8-bit field -/
+def icmpLengthOctet (type : Nat) (lenflag : Bool) (user : Nat) (innerSz : Option Nat) (exts : List (Nat × Nat × Bytes)) : Nat :=
+  let allowed := type = 3 ∨ type = 11 ∨ type = 12                   -- are_extensions_allowed()
+  let b5 := if lenflag then 1 else user                             -- use_length_field(true) stores 1 in the length octet
+  let lengthValue := paddedInner innerSz 4
+  if allowed ∧ (b5 ≠ 0 ∨ lengthValue > 128) then
+    (if lengthValue ≠ 0 then (if !exts.isEmpty then (if lengthValue > 128 then lengthValue else 128) else lengthValue)
+     else 0) / 4 % 256
+  else b5
+
+/-- the same octet of `ICMPv6::write_serialization` (types 1 and 3, 64-bit words) -/
+def icmp6LengthOctet (type : Nat) (lenflag : Bool) (user : Nat) (innerSz : Option Nat) (exts : List (Nat × Nat × Bytes)) : Nat :=
+  let allowed := type = 1 ∨ type = 3
+  let b4 := if lenflag then 1 else user
+  let lengthValue := paddedInner innerSz 8
+  if allowed ∧ (b4 ≠ 0 ∨ lengthValue > 128) then
+    (if lengthValue > 0 ∧ !exts.isEmpty then (if lengthValue > 128 then lengthValue else 128) else lengthValue) / 8 % 256
+  else b4
+
+/-- what ICMP / ICMPv6 write behind the inner PDU when there are extensions: zero padding of the original datagram to 128
+    octets or its own padded size (`unit` = 4 / 8), then the extension structure -/
+def rfc4884Tail (unit : Nat) (innerSz : Option Nat) (exts : List (Nat × Nat × Bytes)) : Bytes :=
+  if exts.isEmpty then [] else
+    (match innerSz with
+      | none => []
+      | some sz => zeros ((if paddedInner innerSz unit > 128 then paddedInner innerSz unit else 128) - sz))
+    ++ writeExtStruct exts
+
 /-- the protocol octet `IP::write_serialization` stores: the number of the inner PDU's class when it has one -/
 def ipProtoField (proto : Nat) (rest : List Layer) : Nat :=
   match rest.head? with
@@ -259,36 +290,15 @@ def write (l : Layer) (rest : List Layer) (inner : Bytes) (parent : Option Layer
     let buf := w16 sp ++ w16 dp ++ w16 (8 + (innerSz.getD 0)) ++ [0, 0] ++ inner
     udpTail (walkPar parent) buf totalSz
   | .icmp type code id seq a b c lenflag exts =>
-    let allowed := type = 3 ∨ type = 11 ∨ type = 12                   -- are_extensions_allowed()
-    let b5 := if lenflag then 1 else id % 256                         -- use_length_field(true) stores 1 in the length octet
-    let lengthValue := paddedInner innerSz 4
-    let b5 := if allowed ∧ (b5 ≠ 0 ∨ lengthValue > 128) then
-        (if lengthValue ≠ 0 then (if !exts.isEmpty then (if lengthValue > 128 then lengthValue else 128) else lengthValue)
-         else 0) / 4 % 256
-      else b5
+    let b5 := icmpLengthOctet type lenflag (id % 256) innerSz exts
     let hdr := [b8 type, b8 code, 0, 0, b8 (id / 256), b8 b5] ++ w16 seq
     let extra := if type = 13 ∨ type = 14 then w32 a ++ w32 b ++ w32 c
       else if type = 17 ∨ type = 18 then w32 a else []
-    let tail := if exts.isEmpty then [] else
-      (match innerSz with
-        | none => []
-        | some sz => zeros ((if paddedInner innerSz 4 > 128 then paddedInner innerSz 4 else 128) - sz))
-      ++ writeExtStruct exts
-    icmpTail (hdr ++ extra ++ inner ++ tail)
+    icmpTail (hdr ++ extra ++ inner ++ rfc4884Tail 4 innerSz exts)
   | .icmp6 type code id seq lenflag exts =>
-    let allowed := type = 1 ∨ type = 3
-    let b4 := if lenflag then 1 else id / 256 % 256
-    let lengthValue := paddedInner innerSz 8
-    let b4 := if allowed ∧ (b4 ≠ 0 ∨ lengthValue > 128) then
-        (if lengthValue > 0 ∧ !exts.isEmpty then (if lengthValue > 128 then lengthValue else 128) else lengthValue) / 8 % 256
-      else b4
+    let b4 := icmp6LengthOctet type lenflag (id / 256 % 256) innerSz exts
     let hdr := [b8 type, b8 code, 0, 0, b8 b4, b8 id] ++ w16 seq
-    let tail := if exts.isEmpty then [] else
-      (match innerSz with
-        | none => []
-        | some sz => zeros ((if paddedInner innerSz 8 > 128 then paddedInner innerSz 8 else 128) - sz))
-      ++ writeExtStruct exts
-    icmp6Tail (walkPar parent) (hdr ++ inner ++ tail) totalSz
+    icmp6Tail (walkPar parent) (hdr ++ inner ++ rfc4884Tail 8 innerSz exts) totalSz
   | .raw d => d ++ inner
   | .pppoe code sess _ tags =>
     let tagsSize := headerSize l - 6
